@@ -453,5 +453,5 @@ func TestInputDirectives(t *testing.T) {
 	if len(proj.Vectors("inputs")) == 0 {
 		t.Skip("inputs probe not linked")
 	}
-	vfrun.Run(t, vfrun.Prop[DCase]{Property: "C02", Name: "TestInputDirectives", Gen: genDirs, Check: checkDirs}, vfrun.N(3000, 150000))
+	vfrun.Run(t, vfrun.Prop[DCase]{Property: "C02", Name: "TestInputDirectives", Gen: genDirs, Check: checkDirs}, vfrun.N(3000, 600000))
 }
